@@ -303,7 +303,7 @@ func constrain(k *xzCase, big bool) {
 		switch k.Family {
 		case "sandwich", "sandwich2", "noisyrep":
 			lim = 300000
-		case "zeros", "run", "zeroprefix", "periodic", "lowent", "altseg", "nearrep", "maxrun", "randzeros":
+		case "zeros", "run", "zeroprefix", "periodic", "lowent", "altseg", "nearrep", "maxrun", "randzeros", "shortruns", "ascwords", "descwords":
 			lim = 12000
 			if big {
 				lim = 40000
